@@ -218,7 +218,11 @@ class DataElement(SubmodelElement, metaclass=abc.ABCMeta):
                         90,
                         "DataElement.category must be one of the following: " +
                         ", ".join(ALLOWED_DATA_ELEMENT_CATEGORIES))
-            self._category = category
+            # NameType restrictions (length, AASd-130) still apply, e.g. to the free categories of File and Blob
+            super()._set_category(category)
+
+    # re-bind the property: Referable.category is bound to Referable._set_category and would bypass the override
+    category = property(base.Referable._get_category, _set_category)
 
 
 class Property(DataElement):
